@@ -105,6 +105,8 @@ TEMPLATES = [
     # generic argument lists: `f::<A, B>()`, method turbofish, `<A as T<B, C>>::X`, `x as M<K, V>` (the last is a known finding)
     "a :: < ? , a > g", "a :: < ? ? , a > g", "a :: < a , ? > g", "a :: < a , ? ? > g", "a :: < ? , ? > g",
     "a . a :: < ? , a > g", "a . a :: < ? ? , a > g", "a . a :: < a , ? ? > g",
+    # trailing commas inside generic argument lists (`f::<A, B,>()`: the comma is glued to the `>` when written without a space)
+    "a :: < ? , > g", "a :: < a , ? , > g", "a :: < a :: < a , ? , > , a > g", "< a s a < a , ? , > > :: a",
     "< a s a < ? , a > > :: a", "< a s a < ? ? , a > > :: a", "< a s a < a , ? ? > > :: a", "< a < ? , a > > :: a", "< ? s a < a , a > > :: a",
     "a s a < ? , a >", "a s a :: < ? , a >", "a s a < a , ? >",
     # closure parameter lists do not split
